@@ -1083,6 +1083,16 @@ def gen_command_case(rng, command=None, variant=None):
     cmd = command or rng.choice(['upload_objects', 'download_objects', 'snapshot', 'restore'])
     if cmd in ('upload_objects', 'snapshot') and rng.random() < 0.35:
         backend, extra_passes = 's3', 0        # the real S3 adapter makes its own two passes (digest, then send)
+    chunk_len = None
+    if variant == 'big-chunks':
+        # the repository stores chunks of a quarter second's to several seconds' worth of the limit (a low limit on an ordinary
+        # repository): a few files of a few chunks each; the pieces handed to the backend must still be the small transfer chunk
+        variant = 'single'
+        L = rng.choice([2048, 4096, 8000, 40000])
+        chunk = max(L // (n * 16), 1)
+        chunk_len = rng.choice([L // 2, L, 2 * L, 4 * L])
+        family = 'big-chunks'
+        target = 0
     if variant == 'single':
         backend, extra_passes = 'recording', 0
     elif variant == 'again':
@@ -1091,6 +1101,10 @@ def gen_command_case(rng, command=None, variant=None):
         backend, extra_passes = 's3', 0
     target //= 1 + extra_passes
     sizes = []
+    if family == 'big-chunks':
+        sizes = [rng.randint(chunk_len, 5 * chunk_len) for _ in range(rng.randint(1, 3))]
+        while sum(sizes) < 3 * L:
+            sizes.append(rng.randint(chunk_len, 5 * chunk_len))
     while sum(sizes) < target and len(sizes) < 900:
         if family == 'small':
             sizes.append(rng.randint(1, chunk))
@@ -1101,7 +1115,7 @@ def gen_command_case(rng, command=None, variant=None):
         else:
             sizes.append(rng.choice([rng.randint(1, chunk), rng.randint(1, chunk), chunk, rng.randint(chunk + 1, 6 * chunk)]))
     return {'probe': 'command', 'command': cmd, 'L': L, 'n': n, 'sizes': sizes, 'family': family, 'seed': rng.randrange(2 ** 32),
-            'backend': backend, 'extra_passes': extra_passes}
+            'backend': backend, 'extra_passes': extra_passes, 'chunk_len': chunk_len}
 
 
 def run_command_case(case):
@@ -1140,6 +1154,8 @@ def run_command_case(case):
             # stored objects are no longer than one transfer chunk
             chunk = max(L // (n * 16), 1)
             mx = max(8, min(chunk, 4096) // 4 * 4)
+            if case.get('chunk_len'):
+                mx = max(8, case['chunk_len'] // 4 * 4)       # a repository whose chunks are long relative to the limit
             await repo.init(settings={'encryption': None, 'chunking': {'min_length': max(1, mx // 2), 'max_length': mx}})
             for i, sz in enumerate(sizes[:150]):
                 (d / 'src' / f'f{i:04d}').write_bytes(r.randbytes(sz))
@@ -1165,6 +1181,23 @@ def run_command_case(case):
     return [(t, b) for t, b, k in be.events if k == want], set(be.chunk_sizes), pl
 
 
+def piece_size_violation(command, L, n, chunks, events, plan, replay, rep):
+    """the pieces a rate-limited command asks the backend to transfer in - the chunk_size argument of upload_stream /
+    download_stream and the reads / writes that really go through the stream - must be the transfer chunk the limit implies:
+    never more than a quarter second's worth (the property's d <= L/4)"""
+    cap = max(L // 4, 1)
+    asked = max(chunks) if chunks else 0
+    moved = max((b for _, b in events), default=0)
+    if asked > cap or moved > cap:
+        rep.violations.append({
+            'what': (f'{plan}: {command} with rate limit {L} B/s and {n} connection(s) asked the backend to transfer in pieces of {asked} bytes '
+                     f'(largest piece that went through the stream: {moved} bytes); the transfer chunk the limit implies is '
+                     f'{max(L // (n * 16), 1)} bytes and never more than L/4 = {cap}'),
+            'signature': {'kind': 'command_piece_size', 'command': command}, 'replay': replay})
+        return True
+    return False
+
+
 def check_command_case(case, rep):
     """window oracle on the payload a rate-limited command hands to / takes from the backend"""
     events, chunks, PL = run_command_case(case)
@@ -1175,6 +1208,8 @@ def check_command_case(case, rep):
     if not events:
         rep.disagreements.append({'what': f'command probe: {case["command"]} transferred nothing through the backend streams', 'replay': case})
         return False
+    how_chunks = f' on a repository with chunks of about {case["chunk_len"]} bytes' if case.get('chunk_len') else ''
+    piece_size_violation(case['command'], case['L'], n, chunks, events, 'one command' + how_chunks, case, rep)
     # the property's fixed burst allowance: L*PAUSE_LIMIT + (n+1)*d_max with d_max the transfer chunk size, at most L/4
     dmax = min(Fr(max(chunks)) if chunks else L / 4, L / 4)
     burst = L * PL + (n + 1) * dmax
@@ -1186,7 +1221,7 @@ def check_command_case(case, rep):
         how = ('to the real S3-compatible adapter, bytes counted as the HTTP transport pulls the request bodies' if case.get('backend') == 's3'
                else f'to a backend that transfers every stream {1 + case.get("extra_passes", 0)} time(s), rewinding in between')
         rep.violations.append({
-            'what': (f'{case["command"]} ({how}) with rate limit {case["L"]} B/s, {n} connection(s), {len(case["sizes"])} files/objects '
+            'what': (f'{case["command"]} ({how}{how_chunks}) with rate limit {case["L"]} B/s, {n} connection(s), {len(case["sizes"])} files/objects '
                      f'({small} of them no longer than the transfer chunk of {max(case["L"] // (n * 16), 1)} bytes): the backend saw {by} payload bytes '
                      f'within {float(T):.6g} s of (virtual) time starting at {float(t):.6g} s; allowed L*T + L*PAUSE_LIMIT + (n+1)*d_max = {float(L * T + burst):.6g}'),
             'signature': {'kind': 'command_window', 'command': case['command'], 'backend': case.get('backend', 'recording')},
@@ -1216,7 +1251,9 @@ def gen_sequence_case(rng, descending=None):
             sizes.append(rng.randint(1, chunk) if family == 'small' else
                          rng.choice([rng.randint(1, chunk), chunk, rng.randint(chunk + 1, 8 * chunk)]))
         steps.append({'command': command, 'L': L, 'sizes': sizes})
-    return {'probe': 'command_sequence', 'n': n, 'steps': steps, 'seed': rng.randrange(2 ** 32)}
+    # sometimes a repository whose chunks are long relative to the lowest limit of the sequence
+    chunk_len = rng.choice([None, None, min(limits) // 2, min(limits) * 2])
+    return {'probe': 'command_sequence', 'n': n, 'steps': steps, 'seed': rng.randrange(2 ** 32), 'chunk_len': chunk_len}
 
 
 def run_sequence_case(case):
@@ -1251,6 +1288,8 @@ def run_sequence_case(case):
                 # stored objects about as long as the transfer chunk of the most generous limit of the sequence
                 chunk = max(max(s_['L'] for s_ in case['steps']) // (n * 16), 1)
                 mx = max(8, min(chunk, 4096) // 4 * 4)
+                if case.get('chunk_len'):
+                    mx = max(8, case['chunk_len'] // 4 * 4)
                 await repo.init(settings={'encryption': None, 'chunking': {'min_length': max(1, mx // 2), 'max_length': mx}})
                 initialised = True
             if command == 'upload_objects':
@@ -1317,6 +1356,8 @@ def check_sequence_case(case, rep):
         if not events:
             rep.disagreements.append({'what': f'command sequence: {step["command"]} transferred nothing through the backend streams', 'replay': case})
             continue
+        if piece_size_violation(step['command'], step['L'], n, chunks, events, f'one Repository object, {plan}: command #{k + 1}', case, rep):
+            found = True
         # each command is judged for ITS OWN limit; d_max is the transfer chunk that limit implies, at most L/4
         dmax = min(Fr(max(step['L'] // (n * 16), 1)), L / 4)
         burst = L * PL + (n + 1) * dmax
@@ -1336,6 +1377,7 @@ def command_probe(rep, rng, rounds):
     """every command x every way a backend may go over the stream (once; again after a rewind; the real S3 adapter), [rounds] times"""
     for command in ('upload_objects', 'download_objects', 'snapshot', 'restore'):
         variants = ['single', 'again'] + (['s3', 's3-large'] if command in ('upload_objects', 'snapshot') else [])
+        variants += ['big-chunks'] * (2 if command == 'restore' else 1) if command in ('snapshot', 'restore') else []
         for _ in range(rounds):
             for variant in variants:
                 case = gen_command_case(rng, command, variant)
